@@ -104,30 +104,40 @@ func cwExecOnce(c CCase, env *core.Env, attempt int) *core.Outcome {
 		return out
 	}
 	out.Log("case knobs=%+v nm=%d ns=%d pct=%v readgate=%q/%d guided=%d", c.Knobs, c.NMst, c.NSeries, c.PCT, c.ReadGate, c.ReadNth, len(c.Sched))
-	// ---- prologue
-	for i, op := range c.Ops {
-		if op.T != cwTPrologue {
+	// ---- rounds: T==0 operations run alone (ungated); each maximal run of T>0
+	// operations is one concurrent segment under the scheduler
+	var v *core.Violation
+	run.initPCT()
+	for i := 0; i < len(c.Ops) && v == nil; {
+		op := c.Ops[i]
+		if op.T == cwTPrologue || op.T >= cwNTasks {
+			v = run.prologueOp(i, op, base)
+			i++
 			continue
 		}
-		if v := run.prologueOp(i, op, base); v != nil {
-			out.Violation = v
-			return out
+		j := i
+		for j < len(c.Ops) && c.Ops[j].T > cwTPrologue && c.Ops[j].T < cwNTasks {
+			j++
 		}
-	}
-	run.node.ib.Flush()
-	run.h.indexFlushed(0)
-	if !c.LazyFiles {
-		run.loadAllFiles()
-	}
-	// ---- concurrent phase
-	for i, op := range c.Ops {
-		if op.T > cwTPrologue && op.T < cwNTasks {
-			run.nextOp[op.T] = append(run.nextOp[op.T], i)
+		if run.closed {
+			out.Log("segment op%d..op%d skipped: the shard is closed", i, j-1)
+		} else {
+			run.node.ib.Flush()
+			run.h.indexFlushed(run.step)
+			if !c.LazyFiles {
+				run.loadAllFiles()
+			}
+			for k := i; k < j; k++ {
+				run.nextOp[c.Ops[k].T] = append(run.nextOp[c.Ops[k].T], k)
+			}
+			v = run.loop()
+			run.sch.freeRun()
+			for t := range run.nextOp {
+				run.nextOp[t] = nil // operations that could not be started any more (closed shard)
+			}
 		}
+		i = j
 	}
-	run.initPCT()
-	v := run.loop()
-	run.sch.freeRun()
 	// record the schedule for guided minimisation
 	cwTraceMu.Lock()
 	if len(cwTraces) > 64 {
@@ -315,16 +325,21 @@ func (run *cwRun) closeNode(phase string) *core.Violation {
 func (run *cwRun) prologueOp(i int, op COp, base string) *core.Violation {
 	sh := run.node.sh
 	out := run.out
+	if run.closed && op.K != "reopen" {
+		out.Log("pre op%d %s skipped: the shard is closed", i, op.K)
+		return nil
+	}
+	run.sch.freeRun()
 	at := map[string]string{"phase": "prologue", "op": op.K}
 	switch op.K {
 	case "w":
 		err := run.doWrite(op)
 		out.Log("pre op%d w id=%d rows=%d err=%v", i, op.ID, len(op.Rows), err != nil)
-		run.h.issue(i, op, 0)
+		run.h.issue(i, op, run.step)
 		if err != nil {
 			return sviol(run.prop, "write_error", fmt.Sprintf("prologue op %d: WriteRows failed: %v", i, err), at)
 		}
-		run.h.ack(i, 0)
+		run.h.ack(i, run.step)
 		run.node.ib.Flush()
 		seq := run.node.sh.immTables.Sequencer()
 		for k := 0; k < 5000 && seq.IsLoading(); k++ {
@@ -353,9 +368,13 @@ func (run *cwRun) prologueOp(i int, op COp, base string) *core.Violation {
 		sh.immTables.MergeDisable()
 		out.Log("pre op%d merge err=%v", i, err != nil)
 	case "reopen":
-		if err := cwCloseNode(run.node); err != nil {
-			return sviol(run.prop, "close_error", fmt.Sprintf("prologue op %d: clean close failed: %v", i, err), at)
+		if !run.closed {
+			if v := run.closeNode("reopen_op"); v != nil {
+				return v
+			}
 		}
+		run.closed, run.closeStarted, run.seqLoading = false, false, false
+		run.h.bg("seq_reload", false, run.step)
 		prev := run.disks[len(run.disks)-1]
 		if err := run.open(filepath.Join(base, fmt.Sprintf("inc%d", run.inc)), prev.Root); err != nil {
 			return sviol(run.prop, "open_failed", fmt.Sprintf("prologue op %d: reopening after a clean close failed: %v", i, err), at)
@@ -364,8 +383,8 @@ func (run *cwRun) prologueOp(i int, op COp, base string) *core.Violation {
 		out.Log("pre op%d reopen", i)
 	case "dropm":
 		err := sh.DropMeasurement(context.Background(), sMstName(op.M))
-		run.h.dropIssued(op.M, 0)
-		run.h.dropDone(op.M, 0)
+		run.h.dropIssued(op.M, run.step)
+		run.h.dropDone(op.M, run.step)
 		out.Log("pre op%d dropm %d err=%v", i, op.M, err != nil)
 	case "q", "close":
 		// not meaningful in the prologue
